@@ -1305,6 +1305,29 @@ func c07Generate(r *rand.Rand, id int) *c07Case {
 		}
 		pre = append(pre, g.createOps(g.fresh("g"), typ, g.holder())...)
 	}
+	if id%6 == 3 {
+		// a wider, deeper layout: several nodes of the type under the root, a group holding one more and two
+		// sub-groups with nodes of their own (sibling containers, each scanned in turn), now and then ten more below the root
+		top := g.fresh("g")
+		pre = append(pre, g.createOps(top, "group", storeRootID)...)
+		for i, n := 0, 2+g.r.Intn(2); i < n; i++ {
+			pre = append(pre, g.createOps(g.fresh("n"), c07TypeNode, storeRootID)...)
+		}
+		pre = append(pre, g.createOps(g.fresh("n"), c07TypeNode, top)...)
+		for k := 0; k < 2+g.r.Intn(2); k++ {
+			sub := g.fresh("g")
+			pre = append(pre, g.createOps(sub, "group", top)...)
+			for i, n := 0, 1+g.r.Intn(2); i < n; i++ {
+				pre = append(pre, g.createOps(g.fresh("n"), c07TypeNode, sub)...)
+			}
+		}
+		if g.r.Intn(3) == 0 {
+			for i := 0; i < 10; i++ {
+				pre = append(pre, g.createOps(g.fresh("n"), c07TypeNode, storeRootID)...)
+			}
+		}
+		g.kinds["nested-groups"]++
+	}
 	for i, n := 0, 1+g.r.Intn(3); i < n; i++ {
 		pre = append(pre, g.createOps(g.fresh("n"), c07TypeNode, g.holder())...)
 	}
